@@ -2,6 +2,7 @@ import Mc.Drv.Sync
 import Mc.Spec.SyncOracles
 import Mc.Spec.RollingOracle
 import Mc.Spec.RelatedOracle
+import Mc.Drv.ApiCheck
 namespace Mc.Drv
 
 def caseOfJ (c : J) : SyncCase :=
@@ -65,6 +66,10 @@ def handleSync (c : J) : Res := Id.run do
     if outcomeName f.outcome != result.getStr "outcome" then
       r := tag (disagree r s!"[outcome] outcome: model {outcomeName f.outcome} impl {result.getStr "outcome"} {result.getStr "detail"}") "diff-outcome"
     if f.after != recordedAfter result then r := tag (disagree r s!"[outcome] addAfter: model {f.after} impl {recordedAfter result}") "diff-outcome"
+  -- the Lean API-server model against the simulator, request by request
+  match apiCheck (defsOfJ (c.getD "defs")) s.calls with
+  | some m => r := tag (disagree r ("[apimodel] " ++ m)) "diff-apimodel"
+  | none => r := tag r "apimodel-agrees"
   -- oracles on the implementation's own trace
   r := judge r "C02" (oracleC02 s)
   r := judge r "C03" (oracleC03 s)
